@@ -27,16 +27,16 @@
 
    Layout.
      A-G  definitions with the suffix _original: the code BEFORE the fixes fb3838d, 3a29455,
-          ef62930, fdea5a8, d884383, 22419a2, 59ae723, with their X_original_refuted lemmas
+          ef62930, fdea5a8, d884383, 22419a2, 59ae723 (and, in H7, f33db41), with their X_original_refuted lemmas
           (vm_compute witnesses) and the partial results they admit, X_original_partial.
      H    the CURRENT code (repaired tree) and the positive theorems, each for EVERY pattern the
           current applicability test accepts, every haystack and offset:
             charclass_exact, charclass_is_match_exact, composite_exact, branch_dispatch_exact,
             anchored_literal_exact, first_bytes_sound (+ first_bytes_filter_sound),
             digit_skip_sound;
-          CompositeSequenceDFA: composite_dfa_exact_partial (all parts have minimum 1) and
-            composite_dfa_exact_refuted — a REMAINING defect of the current tree: a part x{n,}
-            with n >= 2 is accepted but run as x+ (`[a-z]{2,}[0-9]+` on "a1" gives [0,2]).
+            composite_dfa_exact (after fix f33db41: every part must have minimum exactly 1;
+            composite_dfa_original_refuted is the code before it: x{n,}, n >= 2, was run as x+,
+            `[a-z]{2,}[0-9]+` on "a1" gave [0,2]).
           Hypotheses besides the predicate itself: wf_re (parser invariant: x{n,m} has n <= m);
           is_pattern_anchored / is_end_anchored (the conditions under which SelectStrategy
           consults IsBranchDispatchPattern / DetectAnchoredLiteral).
@@ -2759,7 +2759,9 @@ Qed.
 
 (* ------------------------------------------------------------------ H7. CompositeSequenceDFA *)
 
-Definition cdfa_applicable (r : re) : bool :=
+(* nfa/composite_dfa.go:IsCompositeSequenceDFAPattern BEFORE fix f33db41 (after ef62930): only
+   minMatch == 0 was rejected *)
+Definition cdfa_applicable_original_f33db41 (r : re) : bool :=
   match comp_build r with
   | Some ps => (length ps <=? 8) && forallb (fun p => negb (p_min p =? 0) && (p_max p =? 0)) ps
   | None => false
@@ -3062,11 +3064,11 @@ Proof.
     rewrite Hm. apply nth_error_None in Hb. assert (n = 0) by lia. subst n. reflexivity.
 Qed.
 
-(* REMAINING DEFECT (current tree): IsCompositeSequenceDFAPattern only rejects minMatch == 0, but
+(* original code before fix f33db41: IsCompositeSequenceDFAPattern only rejected minMatch == 0, but
    the automaton treats every part as `+` ("parts have minMatch=1, so one char = metMin"): a part
    x{n,} with n >= 2 is run as x+.  `[a-z]{2,}[0-9]+` on "a1": DFA [0,2], reference none. *)
-Theorem composite_dfa_exact_refuted :
-  exists r ps h at_, cdfa_applicable r = true /\ comp_build r = Some ps /\ wf_re r = true /\
+Theorem composite_dfa_original_refuted :
+  exists r ps h at_, cdfa_applicable_original_f33db41 r = true /\ comp_build r = Some ps /\ wf_re r = true /\
                      cdfa_search_at ps h at_ <> first_match h r at_.
 Proof.
   exists (Concat [Repeat true 2 None (Class [(97,122)%N]); Plus true (Class [(48,57)%N])]).
@@ -3075,13 +3077,13 @@ Proof.
 Qed.
 
 (* exact for every accepted pattern whose parts all have minimum 1 (x+, x{1,}) *)
-Theorem composite_dfa_exact_partial :
-  forall r ps, cdfa_applicable r = true -> comp_build r = Some ps -> wf_re r = true ->
+Theorem composite_dfa_original_partial :
+  forall r ps, cdfa_applicable_original_f33db41 r = true -> comp_build r = Some ps -> wf_re r = true ->
   forallb (fun p => p_min p =? 1) ps = true ->
   forall h at_, cdfa_search_at ps h at_ = first_match h r at_.
 Proof.
   intros r ps Happ Hb Hw Hmin h at_. rewrite <- (composite_exact r ps Hb Hw h at_).
-  unfold cdfa_applicable in Happ. rewrite Hb in Happ. apply andb_true_iff in Happ as [_ Hall].
+  unfold cdfa_applicable_original_f33db41 in Happ. rewrite Hb in Happ. apply andb_true_iff in Happ as [_ Hall].
   assert (Hplus : Forall plus_part ps).
   { apply Forall_forall. intros p Hp. rewrite forallb_forall in Hall, Hmin.
     specialize (Hall p Hp). specialize (Hmin p Hp). unfold plus_part.
@@ -3094,6 +3096,35 @@ Proof.
   - apply (cdfa_outer_loop h (p0 :: t) p0 t eq_refl Hplus); lia.
   - replace (S (length h) - at_) with 0 by lia. cbn [comp_loop cdfa_outer].
     assert (Hn : nth_error h at_ = None) by (apply nth_error_None; lia). now rewrite Hn.
+Qed.
+
+
+(* nfa/composite_dfa.go:IsCompositeSequenceDFAPattern / NewCompositeSequenceDFA (current, f33db41):
+   at most 8 parts, every part has minMatch == 1 and no maximum *)
+Definition cdfa_applicable (r : re) : bool :=
+  match comp_build r with
+  | Some ps => (length ps <=? 8) && forallb (fun p => (p_min p =? 1) && (p_max p =? 0)) ps
+  | None => false
+  end.
+
+Lemma cdfa_applicable_current r ps : cdfa_applicable r = true -> comp_build r = Some ps ->
+  cdfa_applicable_original_f33db41 r = true /\ forallb (fun p => p_min p =? 1) ps = true.
+Proof.
+  unfold cdfa_applicable, cdfa_applicable_original_f33db41. intros H Hb. rewrite Hb in *.
+  apply andb_true_iff in H as [Hl Hall]. rewrite Hl. cbn [andb].
+  rewrite forallb_forall in Hall. split; apply forallb_forall; intros p Hp; specialize (Hall p Hp);
+    apply andb_true_iff in Hall as [H1 H2].
+  - rewrite H2. apply Nat.eqb_eq in H1. rewrite H1. reflexivity.
+  - exact H1.
+Qed.
+
+(* every pattern the current test accepts, every haystack, every offset *)
+Theorem composite_dfa_exact :
+  forall r ps, cdfa_applicable r = true -> comp_build r = Some ps -> wf_re r = true ->
+  forall h at_, cdfa_search_at ps h at_ = first_match h r at_.
+Proof.
+  intros r ps Happ Hb Hw h at_. destruct (cdfa_applicable_current r ps Happ Hb) as [Ho Hmin].
+  now apply composite_dfa_original_partial.
 Qed.
 
 (* ================================================================== Z. case checker (models of the CURRENT code) *)
